@@ -111,8 +111,8 @@ def _sha(p):
 class C14(Check):
     prop = "C14"
     level = "exploration"
-    quick_runs = 3000
-    thorough_runs = 60000
+    quick_runs = 6000
+    thorough_runs = 150000
     chunk = 25
     rule = (
         "seeded legacy histories on the real PeeweeStorage at its default v2 path (1-4 buckets with unicode ids, data dicts, "
